@@ -191,6 +191,47 @@ class Session:
       d = gin.get_bindings(key, resolve_references=False, inherit_scopes=op['inherit'])
     return [[k, encode(d[k], gin)] for k in sorted(d)]
 
+  def parse_config_text(self, text):
+    """Structure of a config_str()/operative_config_str() text: sections and literal bindings."""
+    import ast
+    names = [k for k, _ in self.cfg._REGISTRY.items()]  # pylint: disable=protected-access
+
+    def complete(scoped):
+      scope, _, sel = scoped.rpartition('/')
+      sc = sel.split('.')
+      m = [n for n in names if n == sel] or [n for n in names if n.split('.')[-len(sc):] == sc]
+      return scope + '|' + (m[0] if len(m) == 1 else '?' + sel)
+    rows = {}
+    lines = text.split('\n')
+    i = 0
+    while i < len(lines):
+      line = lines[i]
+      m = re.match(r'^# Parameters for (.*):$', line)
+      if m:
+        rows.setdefault(complete(m.group(1)), {})
+      elif line and not line.startswith('#') and ' = ' in line + ' ' and not line.startswith(' '):
+        key, _, rest = line.partition(' = ')
+        if line.endswith(' = \\'):
+          key = line[:-4]
+          vals = []
+          i += 1
+          while i < len(lines) and lines[i].startswith(' '):
+            vals.append(lines[i])
+            i += 1
+          i -= 1
+          rest = '\n'.join(vals)
+        if '.' in key.rpartition('/')[2] and not key.startswith(('import ', 'from ')):
+          scoped, _, arg = key.rpartition('.')
+          try:
+            val = encode(ast.literal_eval(rest.strip()), self.gin)
+          except Exception:  # pylint: disable=broad-except
+            val = {'text': rest.strip()}
+          rows.setdefault(complete(scoped), {})[arg] = val
+        else:
+          rows.setdefault('macro|' + key, {})['value'] = {'text': rest.strip()}
+      i += 1
+    return sorted([k, sorted([a, v] for a, v in d.items())] for k, d in rows.items())
+
   def store_json(self, store):
     rows = []
     for (scope, sel), params in store.items():
@@ -302,6 +343,8 @@ class Session:
         r = self.store_json(self.cfg._OPERATIVE_CONFIG)  # pylint: disable=protected-access
       elif name == 'config':
         r = self.store_json(self.cfg._CONFIG)  # pylint: disable=protected-access
+      elif name == 'opstr':
+        r = self.parse_config_text(self.gin.operative_config_str())
       elif name == 'enter':
         r = self.op_enter(op)
       else:
